@@ -59,6 +59,8 @@ def _cases_body(draw, big, sizes, focused, pkg):
         # focused class: small catalogues of steps that keep / index / copy rows (join with the source kept, duplicate,
         # sort, concatenate, a dump) interleaved with in-place editors, so that every such pair occurs often
         kinds = draw(st.sampled_from([['join', 'row_fn'], ['duplicate', 'row_fn'], ['join', 'row_fn'],
+                                      # runs of consecutive row functions (returning new dicts / editing in place)
+                                      ['row_fn', 'row_fn', 'row_fn', 'add_field'],
                                       ['join', 'duplicate', 'row_fn', 'sort_rows', 'concatenate', 'dump_to_path',
                                        'add_field', 'find_replace']]))
         prog = draw(gp.programs(2, 5, pkg=pkg, kinds=kinds))
